@@ -18,7 +18,9 @@ vars == <<a, b, hist>>
 \* Update FAR (handover), Update QER, Update PDR, new bearer, bearer removed, new CP F-SEID; a modification that is
 \* refused half way (rules updated / removed in the same message before an unknown Remove id), a modification without
 \* any rule, every rule of the session removed (the session stays and is modified further)
-OpsA == {"A:ufar", "A:uqer", "A:updr", "A:add", "A:rm", "A:newcp", "A:rej", "A:empty", "A:rmall"}
+\* A:ufarn: a handover whose Update Forwarding Parameters carry the new Outer Header Creation alone (no Destination Interface:
+\* the FAR keeps its interface - also the second time in a row)
+OpsA == {"A:ufar", "A:ufarn", "A:uqer", "A:updr", "A:add", "A:rm", "A:newcp", "A:rej", "A:empty", "A:rmall"}
 OpsB == {"B:ufar", "B:rm"}
 
 Init == a = FALSE /\ b = FALSE /\ hist = <<>>
